@@ -332,4 +332,6 @@ def check(ctx):
     share(ctx, 'C05', 'R7/C05.', ['vii.', 'i.sequence', 'i.loop_counts', 'i.element_order', 'iii.'])
     # the reduced data reach the stored result whatever order the compiler evaluates arguments in (shared with C04)
     share(ctx, 'C04', 'R8/C04.', ['R6.evaluation_order'])
+    # the point of every call is generated by the channel whose interval of the recorded weights contains the number drawn
+    share(ctx, 'C09', 'R9/C09.', ['R1.interval', 'R4.channel_from_selector'])
 
